@@ -77,6 +77,7 @@ type job struct {
 	system string
 	depth  int
 	group  string
+	share  bool // true: gets an equal share of what is left of the budget; false: may run until the global deadline
 }
 
 func jobs(tier string, depth int) []job {
@@ -85,36 +86,35 @@ func jobs(tier string, depth int) []job {
 	fss := []string{"MemFS", "OrefaFS"}
 	contents := []string{"empty", "abc", "abcdef"}
 
-	dd, fd := 4, 3
+	add := func(group, suffix string, d int, share bool) {
+		for _, f := range fss {
+			for _, c := range contents {
+				js = append(js, job{system: fmt.Sprintf("%s/file/%s/%s", f, c, suffix), depth: d, group: group, share: share})
+			}
+		}
+	}
+
+	dd := 4
 	if tier == "thorough" {
 		dd = 6
 	}
 
 	for _, f := range fss {
 		for k := 0; k <= 4; k++ {
-			js = append(js, job{fmt.Sprintf("%s/dir/k%d", f, k), dd, "dir"})
+			js = append(js, job{system: fmt.Sprintf("%s/dir/k%d", f, k), depth: dd, group: "dir"})
 		}
 	}
 
-	if tier == "thorough" {
-		// all 48 flag sets, 3 handle slots
-		for _, f := range fss {
-			for _, c := range contents {
-				js = append(js, job{fmt.Sprintf("%s/file/%s/s3/t", f, c), 3, "file-3slots-48flags"})
-			}
-		}
-
-		fd = 5 // 2 slots, representative flag sets: as deep as the budget allows
-	}
-
-	if depth > 0 {
-		fd = depth
-	}
-
-	for _, f := range fss {
-		for _, c := range contents {
-			js = append(js, job{fmt.Sprintf("%s/file/%s/s2/q", f, c), fd, "file-2slots-12flags"})
-		}
+	switch {
+	case depth > 0:
+		add("file-2slots-12flags", "s2/q", depth, false)
+	case tier == "thorough":
+		add("file-2slots-12flags", "s2/q", 4, false)
+		add("file-3slots-48flags", "s3/t", 3, false)
+		// as deep as the rest of the budget allows (repeats depths 1-4 of the first group)
+		add("file-2slots-12flags-deep", "s2/q", 5, true)
+	default:
+		add("file-2slots-12flags", "s2/q", 3, false)
 	}
 
 	return js
@@ -186,6 +186,7 @@ func main() {
 	depth := flag.Int("depth", 0, "depth bound of the file systems (0: per tier)")
 	systems := flag.String("systems", "", "comma separated system names (default: per tier)")
 	replay := flag.String("replay", "", "replay file to re-execute with a trace")
+	workers := flag.Int("workers", 0, "worker processes (0: number of CPUs)")
 
 	var wflag string
 
@@ -244,7 +245,7 @@ func main() {
 				d = 3
 			}
 
-			js = append(js, job{sn, d, "selected"})
+			js = append(js, job{system: sn, depth: d, group: "selected"})
 		}
 	}
 
@@ -270,9 +271,17 @@ func main() {
 		WallS    float64 `json:"wall_s"`
 	}
 
+	type instance struct {
+		sig    kf.Sig
+		replay map[string]any
+		hist   int
+		count  int
+	}
+
 	var (
 		all        []sysStat
 		harnessErr string
+		agg        = map[string]*instance{}
 	)
 
 	for ji, j := range js {
@@ -282,29 +291,43 @@ func main() {
 		left := time.Until(deadline)
 		dl := time.Now().Add(left / time.Duration(len(js)-ji))
 
-		if *tier != "thorough" {
+		if !j.share {
 			dl = deadline
 		}
 
 		t0 := time.Now()
 		cfg := bfs.Config{
-			System: j.system, MaxDepth: j.depth, Deadline: dl,
+			System: j.system, MaxDepth: j.depth, Deadline: dl, Workers: *workers,
 			Report: func(system string, hist []string, op string, v bfs.Viol) {
+				// keep, per signature, the instance with the shortest history (across systems)
+				k := kf.Sig(v.Sig).String()
+
+				a := agg[k]
+				if a == nil {
+					a = &instance{sig: kf.Sig(v.Sig), hist: 1 << 30}
+					agg[k] = a
+				}
+
+				a.count++
+
+				if len(hist) >= a.hist {
+					return
+				}
+
 				var d detail
 
 				_ = json.Unmarshal([]byte(v.Detail), &d)
 
-				r := map[string]any{
-					"system": system, "history": hist, "op": op, "call": d.Call, "what": d.What,
+				a.hist = len(hist)
+				a.replay = map[string]any{
+					"system": system, "history": append([]string{}, hist...), "op": op, "call": d.Call, "what": d.What,
 					"expected_kernel": d.Expected, "observed_avfs": d.Observed,
-					"note": "R = scratch directory on tmpfs; f = R/f, g = R/g, d = R/d; the same absolute paths exist in the emulated file system; re-run: ./check C02 quick -replay <this file>",
+					"note": "R = scratch directory on tmpfs; f = R/f, g = R/g, d = R/d; the same absolute paths exist in the emulated file system; re-run with a trace: ./check C02 quick -replay <this file>",
 				}
 
 				if d.Call == "" {
-					r["detail"] = v.Detail
+					a.replay["detail"] = v.Detail
 				}
-
-				rep.Report(kf.Sig(v.Sig), r)
 			},
 		}
 
@@ -377,6 +400,19 @@ func main() {
 	}
 
 	sort.Strings(oc)
+
+	var sigKeys []string
+	for k := range agg {
+		sigKeys = append(sigKeys, k)
+	}
+
+	sort.Strings(sigKeys)
+
+	for _, k := range sigKeys {
+		for i := 0; i < agg[k].count; i++ {
+			rep.Report(agg[k].sig, agg[k].replay)
+		}
+	}
 
 	code := rep.Finish()
 
